@@ -438,6 +438,7 @@ func evBitBackList(t *Tracer, qs []QK, hz, ovz, S, mn, mx int64) {
 }
 
 func driveTiles(t *Tracer, r Rng, n int) {
+	driveTileTwins(t, r, n/8)
 	for i := 0; i < n; {
 		E := r.In(0, 35)
 		O := r.offset()
@@ -583,6 +584,7 @@ func driveTiles(t *Tracer, r Rng, n int) {
 
 func driveBits(t *Tracer, r Rng, n int) {
 	driveBitsFree(t, r, n/8)
+	driveBitTwins(t, r, n/8)
 	for i := 0; i < n; {
 		if r.Chance(0.25) { // high subdivision zooms
 			vz := r.In(13, 35)
@@ -841,4 +843,186 @@ func init() {
 		evBitBack(t, QK{QZ: decInt(k[0]), Digits: decInts(k[1]), VZ: decInt(k[2]), VI: decInt(k[3])},
 			decInt(a["hz"]), decInt(a["ovz"]), decInt(a["S"]), decInt(a["mn"]), decInt(a["mx"]))
 	})
+}
+
+// ---- lists whose members are "packed-key twins" --------------------------------------------------------------
+// Two members (zoom, index) and (zoom', index') that are different voxels / tiles but equal under the usual ways of
+// packing a zoom (0..35, six bits) and an index into one word with too narrow a zoom field: index<<5|zoom,
+// index*32+zoom, index*35+zoom, index<<4|zoom.  The result for the list must be the union of the results for its
+// members (C13: "each tile gets exactly the indices of its own range"; C17: "each voxel its own run of cells"),
+// whatever the list order.  Strings on both sides (Law): no model bound on zooms or magnitudes.
+func packedTwin(r Rng, z, a int64) (int64, int64, bool) {
+	type za struct{ z, a int64 }
+	c := []za{}
+	if z >= 32 {
+		c = append(c, za{z - 32, a + 1}, za{z - 32, a | 1}, za{z - 32, a})
+	}
+	if z <= 3 {
+		c = append(c, za{z + 32, a - 1}, za{z + 32, a &^ 1}, za{z + 32, a})
+	}
+	if z == 35 {
+		c = append(c, za{0, a + 1})
+	}
+	if z == 0 {
+		c = append(c, za{35, a - 1})
+	}
+	if z >= 16 {
+		c = append(c, za{z - 16, a + 1}, za{z - 16, a | 1})
+	}
+	if z < 16 {
+		c = append(c, za{z + 16, a - 1}, za{z + 16, a &^ 1})
+	}
+	if len(c) == 0 {
+		return 0, 0, false
+	}
+	p := c[r.Intn(len(c))]
+	return p.z, p.a, true
+}
+
+func unionLaw(t *Tracer, name string, args map[string]any, n int, f func(idx []int) ([]string, string)) {
+	all := make([]int, n)
+	for i := range all {
+		all[i] = i
+	}
+	whole, bad := f(all)
+	set := map[string]bool{}
+	for i := 0; i < n; i++ {
+		one, b1 := f([]int{i})
+		if b1 != "" && bad == "" {
+			bad = b1
+		}
+		for _, x := range one {
+			set[x] = true
+		}
+	}
+	parts := make([]string, 0, len(set))
+	for x := range set {
+		parts = append(parts, x)
+	}
+	wset := map[string]bool{}
+	for _, x := range whole {
+		wset[x] = true
+	}
+	wl := make([]string, 0, len(wset))
+	for x := range wset {
+		wl = append(wl, x)
+	}
+	if len(wl) == 0 && len(parts) == 0 && bad == "" {
+		return // nothing is returned for any member: no case
+	}
+	emitLaw(t, name, args, sortedCopy(wl), sortedCopy(parts), bad)
+}
+
+func driveTileTwins(t *Tracer, r Rng, n int) {
+	for i := 0; i < n; i++ {
+		// key zoom / key index twins; the altitude reference keeps every range small
+		E := int64(25)
+		O := r.Pick(0, 0, 1<<24)
+		v1 := r.Pick(32, 33, 34, 35, 0, 1, 2, 3, 16, 17, 20)
+		z1 := r.In(0, 6)
+		if v1 <= 3 {
+			z1 = r.In(1, (int64(1)<<uint(v1))-1+1)
+		}
+		v2, z2, ok := packedTwin(r, v1, z1)
+		if !ok || z2 < 0 || v2 < 0 || v2 > 35 {
+			continue
+		}
+		h := r.In(10, 30)
+		x, y := r.In(0, (int64(1)<<uint(h))-2), r.In(0, (int64(1)<<uint(h))-1)
+		ts := []Tile{{H: h, X: x, Y: y, V: v1, Z: z1}, {H: h, X: x + r.In(0, 1), Y: y, V: v2, Z: z2}}
+		if r.Chance(0.3) {
+			ts = append(ts, Tile{H: h, X: x, Y: y, V: r.In(20, 30), Z: r.In(0, 50)})
+		}
+		r.Shuffle(len(ts), func(i, j int) { ts[i], ts[j] = ts[j], ts[i] })
+		ovz := r.In(4, 12)
+		in := []*object.TileXYZ{}
+		desc := []string{}
+		for _, x := range ts {
+			tile, err := object.NewTileXYZ(x.H, x.X, x.Y, x.V, x.Z)
+			if err != nil {
+				in = nil
+				break
+			}
+			in = append(in, tile)
+			desc = append(desc, fmt.Sprintf("%d/%d/%d/%d/%d", x.H, x.X, x.Y, x.V, x.Z))
+		}
+		if in == nil {
+			continue
+		}
+		// every member must be convertible on its own and stay small
+		small := true
+		for _, x := range ts {
+			a, b, err := transform.ConvertAltitudekeyToMinMaxZ(x.Z, x.V, ovz, E, O)
+			if err != nil || b-a > 2100 {
+				small = false
+			}
+		}
+		if !small {
+			continue
+		}
+		unionLaw(t, "TileListIsUnionOfMembers", map[string]any{"tiles": desc, "E": E, "O": O, "ovz": ovz}, len(in), func(idx []int) ([]string, string) {
+			sub := []*object.TileXYZ{}
+			for _, j := range idx {
+				sub = append(sub, in[j])
+			}
+			o, res := guard(func() (any, error) { return transform.ConvertTileXYZsToExtendedSpatialIDs(sub, E, O, ovz) })
+			if o != "ok" {
+				return nil, "outcome " + o
+			}
+			ss := []string{}
+			for _, id := range res.([]object.ExtendedSpatialID) {
+				ss = append(ss, id.ID())
+			}
+			return ss, ""
+		})
+	}
+}
+
+func driveBitTwins(t *Tracer, r Rng, n int) {
+	for i := 0; i < n; i++ {
+		v1 := r.Pick(32, 33, 34, 35, 0, 1, 2, 3, 16, 17, 20)
+		n1 := int64(1) << uint(v1)
+		f1 := r.In(-3, 3)
+		if f1 < -n1 || f1 > n1-1 {
+			f1 = r.In(-n1, n1-1)
+		}
+		v2, f2, ok := packedTwin(r, v1, f1)
+		if !ok {
+			continue
+		}
+		if n2 := int64(1) << uint(v2); f2 < -n2 || f2 > n2-1 {
+			continue
+		}
+		h := r.In(8, 28)
+		x, y := r.In(0, (int64(1)<<uint(h))-2), r.In(0, (int64(1)<<uint(h))-1)
+		ids := []string{ID{h, x, y, v1, f1}.String(), ID{h, x + 1, y, v2, f2}.String()}
+		if r.Chance(0.3) {
+			ids = append(ids, ID{h, x, y, r.In(22, 27), r.In(-40, 40)}.String())
+		}
+		r.Shuffle(len(ids), func(i, j int) { ids[i], ids[j] = ids[j], ids[i] })
+		// a height range of 2^k metres from a multiple of its cell, subdivided into at most 64 cells
+		vz := r.In(1, 6)
+		span := float64(r.Pick(256, 512, 1024, 300, 1000))
+		minH := float64(r.Pick(0, -100, -128, -256, 64))
+		hz := r.In(max(1, h-2), h)
+		unionLaw(t, "HeightRangeListIsUnionOfMembers", map[string]any{"ids": ids, "hz": hz, "vz": vz, "min": minH, "max": minH + span}, len(ids), func(idx []int) ([]string, string) {
+			sub := []string{}
+			for _, j := range idx {
+				sub = append(sub, ids[j])
+			}
+			o, res := guard(func() (any, error) {
+				return transform.ConvertExtendedSpatialIDsToQuadkeysAndVerticalIDs(sub, hz, vz, minH+span, minH)
+			})
+			if o != "ok" {
+				return nil, "outcome " + o
+			}
+			ss := []string{}
+			for _, g := range res.([]*object.FromExtendedSpatialIDToQuadkeyAndVerticalID) {
+				for _, p := range g.InnerIDList() {
+					ss = append(ss, fmt.Sprintf("%d/%d:%d/%d", g.QuadkeyZoom(), p[0], g.VerticalZoom(), p[1]))
+				}
+			}
+			return ss, ""
+		})
+	}
 }
